@@ -90,3 +90,68 @@ macro_rules! def_check_form {
 def_check_form!(check_form, |b, e| EndianSlice::new(b, e));
 def_check_form!(check_form_k1, |b, e| FixLeb::<RunTimeEndian, 1>::new(b, e));
 def_check_form!(check_form_k2, |b, e| FixLeb::<RunTimeEndian, 2>::new(b, e));
+
+/// Name-based normalisation (`Attribute::value`) never changes the numeric payload or target:
+/// for one concrete attribute name, every representative raw class (one form per class, payload symbolic).
+fn norm_one(name: u16, form: u16, twin: bool) {
+    // encoding and byte order are concrete here: normalisation depends on neither (the legacy data4/data8
+    // rule is part of the decode harnesses)
+    let e = LittleEndian;
+    let enc = Encoding { format: Format::Dwarf32, version: 4, address_size: 8 };
+    let abbrevs = Abbreviations::default();
+    let mut buf: [u8; 12] = kani::any();
+    // block lengths are concrete (3 bytes): a symbolic-length view costs 10x and normalisation never looks at it
+    if form == 0x0a {
+        buf[0] = 3;
+    }
+    if form == 0x18 {
+        buf[0] = 0x83;
+        buf[1] = 0;
+    }
+    let implicit: Option<i64> = if form == 0x21 { Some(kani::any()) } else { None };
+    let spec = AttributeSpecification::new(DwAt(name), DwForm(form), implicit);
+    let mut raw = EntriesRaw::new(FixLeb::<LittleEndian, 2>::new(&buf[..], e), enc, &abbrevs, UnitOffset(0));
+    if let Ok(a) = raw.read_attribute(spec) {
+        let r = a.raw_value();
+        let n = a.value();
+        assert!(payload_preserved(payload(&r), payload(&n)), "normalisation changed the payload");
+        // helper views agree with the raw payload as well
+        if let (Some(u), Payload::Num { bits, width }) = (a.udata_value(), payload(&r)) {
+            assert!(u as u128 == bits);
+        }
+        if let Some(o) = a.offset_value() {
+            assert!(payload(&r) == Payload::Num { bits: o as u128, width: 0 });
+        }
+        if twin {
+            assert!(tag(&r) == tag(&n), "twin");
+        }
+    }
+}
+
+pub fn check_norm(name: u16, full: bool, twin: bool) {
+    // literal form codes (a table lookup would make the form symbolic for the symbolic executor)
+    norm_one(name, 0x01, twin);
+    norm_one(name, 0x0a, twin);
+    norm_one(name, 0x0b, twin);
+    norm_one(name, 0x05, twin);
+    norm_one(name, 0x06, twin);
+    norm_one(name, 0x07, twin);
+    norm_one(name, 0x0d, twin);
+    norm_one(name, 0x0f, twin);
+    norm_one(name, 0x18, twin);
+    norm_one(name, 0x0c, twin);
+    norm_one(name, 0x17, twin);
+    norm_one(name, 0x13, twin);
+    norm_one(name, 0x10, twin);
+    norm_one(name, 0x0e, twin);
+    norm_one(name, 0x21, twin);
+    if full {
+        // index forms pass through normalisation untouched and are 6x dearer to execute symbolically
+        norm_one(name, 0x1a, twin);
+        norm_one(name, 0x1b, twin);
+        norm_one(name, 0x22, twin);
+        norm_one(name, 0x23, twin);
+    }
+    kani::cover!(true);
+}
+
